@@ -202,6 +202,21 @@ def run_random(spec, acc, focus):
                             else:
                                 ls.mesh.dorfler_refine_anisotropic(eta, theta)
                             ls.ref = rm.RefMesh.from_leaves(rm.leaf_dict(ls.mesh).items(), ls.glued, ls.domain)
+                    elif len(L) < 400 and ls.gamma is not None:
+                        # grading-driven refinement (shipped curves only: C19's termination bound needs roots of comparable size)
+                        from ..props.c19 import graded_call, size_bound
+                        sigma = rng.choice([1, 1.5, 2])
+                        equal_slabs = len({round(b - a, 12) for a, b in zip(ls.time_grid, ls.time_grid[1:])}) == 1
+                        if not equal_slabs or size_bound(ls.mesh, ls, sigma, 4) > 6000:
+                            continue
+                        kind = 'grading'
+                        ls.history.append(['grading', sigma])
+                        ev_pending = log.take()
+                        res = graded_call(acc, ls, log, sigma, 4, {'mesh': ms, 'history': list(ls.history)}, 6000)
+                        log.events.extend(ev_pending)
+                        ls.ref = rm.RefMesh.from_leaves(rm.leaf_dict(ls.mesh).items(), ls.glued, ls.domain)
+                        if res == 'viol':
+                            break
                     else:
                         continue
                 except (Exception, RecursionError) as ex:
